@@ -177,3 +177,20 @@ def scripted_policy(decisions, log):
         def on_request_error(self, query, consistency, error, retry_num):
             return self._next("request_error", query, retry_num, consistency=consistency, error=type(error).__name__)
     return Scripted()
+
+
+WARM_Q = "SELECT w FROM warm"
+
+
+def warm_up(sim, session, cluster, nodes, count):
+    """`count` earlier requests per node (answered by the node's default handler).  Together with a small
+    max_in_flight (few stream ids per connection) this makes the request under test travel on every
+    stream id over count = 0 .. max_in_flight-1, id 0 included: with the default 300 ids per connection
+    id 0 only comes round every 300th request, and falsy-zero mistakes stay invisible."""
+    from cassandra.query import SimpleStatement
+    for _ in range(count):
+        for nd in nodes:
+            h = host_of(cluster, nd.address)
+            if h is not None and session._pools.get(h) is not None:
+                sim.call(session.execute, SimpleStatement(WARM_Q), host=h, timeout=None)
+    sim.settle()
